@@ -125,6 +125,19 @@ func (s *Session) Generate(key string) []*FuncResult {
 	return out
 }
 
+// LemmaResults: one obligation per `lemma` item of the spec files, to be proved from the
+// definitions and axioms alone (never from other lemmas).
+func (s *Session) LemmaResults() *FuncResult {
+	r := &FuncResult{Key: ModulePath + "/spec.lemmas", Returns: 1}
+	for _, ax := range s.Ex.Prelude.Axioms {
+		if !ax.Lemma {
+			continue
+		}
+		r.Obligations = append(r.Obligations, &Obligation{Func: r.Key, Name: "lemma:" + ax.Label, Class: "lemma", Goal: ax.T, ProvingLemma: true, Detail: ax.T.String()})
+	}
+	return r
+}
+
 // DischargeAll runs the solvers on every open obligation.
 func (s *Session) DischargeAll(results []*FuncResult, sub string) {
 	type job struct{ o *Obligation }
@@ -149,7 +162,7 @@ func (s *Session) DischargeAll(results []*FuncResult, sub string) {
 	var mu sync.Mutex
 	texts := map[[32]byte]*Obligation{}
 	for i, o := range jobs {
-		text, axioms := s.Ex.Prelude.Emit(&Query{Hyps: o.Hyps, Goal: o.Goal, NoAxioms: o.NoAxioms, Opaque: o.Opaque}, false)
+		text, axioms := s.Ex.Prelude.Emit(&Query{Hyps: o.Hyps, Goal: o.Goal, NoAxioms: o.NoAxioms, Opaque: o.Opaque, ProvingLemma: o.ProvingLemma}, false)
 		o.Axioms = axioms
 		// identical queries are solved once
 		th := sha256.Sum256([]byte(text))
@@ -286,7 +299,7 @@ func (s *Session) VacuityCheck(results []*FuncResult, sub string) []*CoverResult
 					cr.Tried++
 					continue
 				}
-				text, _ := s.Ex.Prelude.Emit(&Query{Hyps: o.Hyps, Goal: o.Goal, NoAxioms: o.NoAxioms, Opaque: o.Opaque}, false)
+				text, _ := s.Ex.Prelude.Emit(&Query{Hyps: o.Hyps, Goal: o.Goal, NoAxioms: o.NoAxioms, Opaque: o.Opaque, ProvingLemma: o.ProvingLemma}, false)
 				file, err := WriteQuery(dir, fmt.Sprintf("%03d_%03d_%s", gi, i, o.FullName()), text)
 				if err != nil {
 					continue
